@@ -1,5 +1,6 @@
 """C17 — external actions move once through request, claim and settlement — durably."""
 from ..prims import *
+from ..guards import check_strength
 from ..guards import find_guard, find_presence_guard, side_tokens
 from ..baselines import baseline
 
@@ -150,6 +151,8 @@ def run(ctx):
         else:
             st, detail = find_guard(prog, f, PE, variant, ta, tb)
         rep.check(st == "ok", "C17.R3", "guard:%s:%s:%s~%s" % (f.name, variant, "+".join(sorted(ta)), "+".join(sorted(tb))), detail, "%s — %s" % (st, detail), site=f.loc())
+        if st == "ok":
+            check_strength(rep, "C17.R3", "guard:%s:%s:%s~%s" % (f.name, variant, "+".join(sorted(ta)), "+".join(sorted(tb))), "C17", prog, f, PE, variant, ta, tb)
     for (path, variant, need) in PRESENCE:
         f = prog.fn(path)
         st, detail = find_presence_guard(prog, f, PE, variant, need)
